@@ -185,11 +185,13 @@ def merge_cov(rep, scov, ksum=None):
         rep.coverage["solver_s"] = round(scov["solver_s"] + kc["solver_s"], 1)
 
 
-def s_property(prop, level, quick_items, thorough_items, k=False, kinds=None, extra_assume=None):
+def s_property(prop, level, quick_items, thorough_items, k=False, kinds=None, extra_assume=None, front_end=False):
     def runner(tier, seed):
         rep = Report(prop, tier, seed, level)
         items = quick_items(seed) if tier == "quick" else thorough_items(seed)
         scov, _ = run_s(rep, items, tier, kinds=kinds)
+        if front_end:
+            scov["front_end_regressions"] = front_end_regressions(rep)
         ksum = check_k(prop, tier, rep) if k else None
         merge_cov(rep, scov, ksum)
         rep.assumptions = S_ASSUME + (extra_assume or [])
@@ -199,9 +201,15 @@ def s_property(prop, level, quick_items, thorough_items, k=False, kinds=None, ex
 
 def run_C15(tier, seed):
     rep = Report("C15", tier, seed, "model_checking")
+    # values whose content changed after they were created (text modified in place), compared through whole programs:
+    # the Kani harnesses build fresh values only
+    items = [x for x in fams("sequences", "boundary", "builtins") if any(k in x[0] for k in (
+        "str-eq", "nan-same-object", "stored-types", "str-literal", "fn-eq", "str-alias", "str-set-multi", "float-text-17"))]
+    scov, _ = run_s(rep, items, tier)
     s = check_k("C15", tier, rep)
-    rep.coverage = k_coverage(s)
+    merge_cov(rep, scov, s)
     rep.assumptions = ["CBMC's model of Rust integer, pointer-to-integer and float bit casts",
+                       "values modified after creation (text changed in place) are compared through %d whole programs (nlsym + native witness), not by Kani" % len(items),
                        "strings from an 8-entry literal table, arrays <= 3 elements (bound)",
                        "random UTF-8 / nested arrays beyond the bound are outside the claim"]
     return rep.finish()
@@ -232,6 +240,46 @@ def pairs(pred=None):
 def sessions(n, seed=0, rnd_n=0, rnd_len=5):
     from .nlsym import skeletons as sk
     return sk.fam_sessions_directed() + sk.fam_sessions(n) + (sk.fam_sessions_random(seed, rnd_n, rnd_len) if rnd_n else [])
+
+
+FRONT_END_REJECTS = [
+    # texts the front end must reject as a whole, with a SyntaxError and before any output.  These are NOT decided by a solver
+    # (the parser cannot be executed symbolically, DESIGN.md 1): directed native regressions of repaired front-end defects,
+    # reported separately in the evidence.
+    ("fe:illegal-char-mid", 'print(1) @ print(2)'), ("fe:lone-ampersand", 'print(1); 5 & 3'), ("fe:lone-pipe", 'print(1); ja | nee'),
+    ("fe:illegal-char-last", 'print(1); 1 #'), ("fe:illegal-nonascii", 'print(1); 1 € 2'), ("fe:illegal-first", '@ print(1)'),
+    ("fe:unterminated-string", 'print(1); 5 "abc'), ("fe:unterminated-string-escaped-quote", 'print(1); "abc\\"'),
+    ("fe:unterminated-string-in-call", 'print(1); print("abc)'), ("fe:illegal-in-block", 'print(1); als ja { 1 @ }'),
+    ("fe:illegal-in-fn", 'print(1); functie f() { 1 ? 2 }'), ("fe:huge-int-literal", 'print(1); 99999999999999999999'),
+    ("fe:bad-parameter-list", 'print(1); functie ('), ("fe:bad-parameter-list-2", 'print(1); functie f(1) { }'),
+    ("fe:unclosed-block", 'print(1); als ja { 1'), ("fe:unclosed-paren", 'print(1); (1 + 2'), ("fe:unclosed-bracket", 'print(1); [1, 2'),
+    ("fe:return-outside-function", 'print(1); antwoord 1'),
+]
+
+
+def front_end_regressions(rep):
+    """native, not solver-decided: every text of FRONT_END_REJECTS must come back as SyntaxError with no output (dev and release)"""
+    from .nlsym import driver
+    nat = driver.Native()
+    res = {"texts": len(FRONT_END_REJECTS), "rejected_with_syntax_error_and_no_output": 0, "note": "directed native regressions, not decided by a solver"}
+    try:
+        for name, src in FRONT_END_REJECTS:
+            bad = None
+            for prof in ("dev", "release"):
+                j = nat.eval_one(src, release=(prof == "release"))
+                r = j.get("result", {})
+                kind = (r.get("error") or {}).get("kind")
+                if kind != "SyntaxError" or j.get("output", ""):
+                    bad = "%s: %s, output %r" % (prof, ("error kind %s" % kind) if kind else str(r)[:120], j.get("output", "")[:40])
+                    break
+            if bad:
+                rep.violation("frontend:" + name, "%s: the text %r must be rejected with a SyntaxError before any output | %s" % (name, src, bad),
+                              "# directed front-end regression (native, not solver-decided)\n### PROGRAM\n%s\n### EXPECT SyntaxError\n### NATIVE\n%s\n" % (src, bad))
+            else:
+                res["rejected_with_syntax_error_and_no_output"] += 1
+    finally:
+        nat.close()
+    return res
 
 
 def gc_items(seed, tier):
@@ -272,9 +320,10 @@ PROPS = {
                       k=True, kinds=("unsafe", "typing", "residue", "witness")),
     "C05": s_property("C05", "translation_validation",
                       lambda seed: fams("boundary", "builtins") + [x for x in fams("operator_forms") if ":mixed:" in x[0] or ":same:" in x[0]],
-                      lambda seed: fams("boundary", "builtins", "operator_forms", "sequences") + rnd(seed, 300), k=True,
-                      extra_assume=["claimed for the BACK END only: lexing/parsing as functions of arbitrary text (token noise, truncations, termination of the parser loops) "
-                                    "cannot be executed symbolically here (DESIGN.md 1) and are outside the claim"]),
+                      lambda seed: fams("boundary", "builtins", "operator_forms", "sequences") + rnd(seed, 300), k=True, front_end=True,
+                      extra_assume=["claimed for the BACK END and the LEXER (Kani harnesses per first character, DESIGN.md 5 C08); parsing as a function of arbitrary token sequences "
+                                    "(truncations, termination of the parser loops) cannot be executed symbolically here (DESIGN.md 1) and is outside the claim; "
+                                    "18 directed texts the front end must reject are run natively as regressions of repaired defects (reported separately, not solver-decided)"]),
     "C09": s_property("C09", "translation_validation",
                       lambda seed: fams("scoping", "undeclared") + rnd(seed, 30),
                       lambda seed: fams("scoping", "undeclared", "calls") + exh(3) + rnd(seed, 300), k=True),
@@ -301,6 +350,6 @@ PROPS = {
                       lambda seed: sessions(3, seed, 200, 4),
                       lambda seed: sessions(3, seed, 3000, 6), k=True, kinds=("session",)),
     "C06": s_property("C06", "model_checking",
-                      lambda seed: fams("operator_forms"),
-                      lambda seed: fams("operator_forms"), k=True),
+                      lambda seed: fams("operator_forms") + [x for x in fams("boundary") if "nan" in x[0] or "inf-" in x[0] or "float-div" in x[0]],
+                      lambda seed: fams("operator_forms") + [x for x in fams("boundary") if "nan" in x[0] or "inf-" in x[0] or "float-div" in x[0]], k=True),
 }
